@@ -137,18 +137,23 @@ def build(case):
     kind = case["kind"]
     real = case["mode"] == "real"
     if kind in ("custom", "tabular"):
-        rows_s, rows_r = 2, (2 if case["dom"] else 3)
+        rows_s = case.get("rows", 2)                 # p6g: explicit row count (0 rows: real mode only)
+        rows_r = rows_s if case["dom"] else rows_s + 1
 
         def vs(i, side):
             if real:
                 return _vals(case["pal_" + side][i], rows_s if side == "s" else rows_r)
             return _vals(i if side == "s" else 1000 + i, rows_s if side == "s" else rows_r)
         if kind == "custom":
-            return (_CustomFields(0, [(n, vs(i, "s")) for i, n in enumerate(case["src"])]),
-                    _CustomFields(0 if case["dom"] else 1, [(n, vs(i, "r")) for i, n in enumerate(case["ref"])]))
+            so = _CustomFields(0, [(n, vs(i, "s")) for i, n in enumerate(case["src"])])
+            if case.get("alias"):                    # p6g: the SAME object in both roles
+                return so, so
+            return (so, _CustomFields(0 if case["dom"] else 1, [(n, vs(i, "r")) for i, n in enumerate(case["ref"])]))
         from fieldcompare.tabular import Table, TabularFields
-        return (TabularFields(Table(num_rows=rows_s), {n: vs(i, "s") for i, n in enumerate(case["src"])}),
-                TabularFields(Table(num_rows=rows_r), {n: vs(i, "r") for i, n in enumerate(case["ref"])}))
+        so = TabularFields(Table(num_rows=rows_s), {n: vs(i, "s") for i, n in enumerate(case["src"])})
+        if case.get("alias"):
+            return so, so
+        return (so, TabularFields(Table(num_rows=rows_r), {n: vs(i, "r") for i, n in enumerate(case["ref"])}))
     # mesh kinds
     if real:
         ps, pr = case["pal_s"], case["pal_r"]
@@ -157,8 +162,18 @@ def build(case):
     else:
         cs = lambda k: k              # noqa: E731
         cr = lambda k: 1000 + k       # noqa: E731
-    return (_mesh_objs(case["lm_s"], case["pf_s"], case["cf_s"], cs, 0),
-            _mesh_objs(case["lm_r"], case["pf_r"], case["cf_r"], cr, 0))
+    wrap = case.get("wrap", ["plain", "plain"])      # p6g: TransformedMeshFields views handed to the comparator
+    so = _wrap_fields(_mesh_objs(case["lm_s"], case["pf_s"], case["cf_s"], cs, 0), wrap[0])
+    if case.get("alias"):
+        return so, so
+    return so, _wrap_fields(_mesh_objs(case["lm_r"], case["pf_r"], case["cf_r"], cr, 0), wrap[1])
+
+
+def _wrap_fields(fields, how):
+    if how == "plain":
+        return fields
+    from fieldcompare import mesh as fcmesh
+    return getattr(fcmesh, how)(fields)          # sort / sort_points / sort_cells / strip_orphan_points
 
 
 def cell_flags(case, side, n):
@@ -199,8 +214,9 @@ def run_impl(case):
     src, ref = build(case)
     sn, rn = field_names(src), field_names(ref)
     real = case["mode"] == "real"
-    s_first = [float(np.asarray(f.values).flat[0]) for f in src]
-    r_first = [float(np.asarray(f.values).flat[0]) for f in ref]
+    if not real:
+        s_first = [float(np.asarray(f.values).flat[0]) for f in src]
+        r_first = [float(np.asarray(f.values).flat[0]) for f in ref]
     if real:
         # external fact "outcome of the predicate on this pair", measured with the real DefaultEquality on the very
         # arrays (equal palette value and equal shape -> pass; point field vs cell field of the same name -> shapes differ)
@@ -225,24 +241,34 @@ def run_impl(case):
     class _Boom(Exception):
         pass
 
-    def selector(a, b):
-        i = spos[float(np.asarray(a.values).flat[0])]
-        j = rpos[float(np.asarray(b.values).flat[0])]
-        events.append(["sel", i, j, a.name, b.name])
-        o = out[i][j]
-        if o == 0:
-            return lambda x, y: PredicateResult(True, "stub pass")
-        if o == 1:
-            return lambda x, y: PredicateResult(False, "stub fail")
+    def make_selector(outm, ev):
+        def selector(a, b):
+            i = spos[float(np.asarray(a.values).flat[0])]
+            j = rpos[float(np.asarray(b.values).flat[0])]
+            ev.append(["sel", i, j, a.name, b.name])
+            o = outm[i][j]
+            if o == 0:
+                return lambda x, y: PredicateResult(True, "stub pass")
+            if o == 1:
+                return lambda x, y: PredicateResult(False, "stub fail")
 
-        def boom(x, y):
-            raise _Boom("stub raise")
-        return boom
+            def boom(x, y):
+                raise _Boom("stub raise")
+            return boom
+        return selector
 
-    def callback(comp):
-        events.append(["cb", comp.name, comp.status.name])
+    def make_callback(ev):
+        def callback(comp):
+            ev.append(["cb", comp.name, comp.status.name])
+        return callback
 
+    selector, callback = make_selector(None if real else out, events), make_callback(events)
     incl, excl = filt_make(case["incl"]), filt_make(case["excl"])
+    reuse = case.get("reuse") if (not real and case["kind"] != "meshcmp") else None
+    if reuse:
+        # p6g: a SECOND comparator object over the very same field-data objects with other filters, constructed before the
+        # first one is ever called (state shared between comparator objects / cached on the field data)
+        comparator2 = FieldDataComparator(src, ref, filt_make(reuse["incl2"]), filt_make(reuse["excl2"]))
     if case["kind"] == "meshcmp":
         from fieldcompare.mesh import MeshFieldsComparator
         fl = case.get("flags", [False, False, False])
@@ -270,6 +296,25 @@ def run_impl(case):
             except Exception as e:  # noqa: BLE001
                 again.append({"raised": f"{type(e).__name__}: {e}"[:200]})
         del events[n_ev:]
+    steps = None
+    if reuse:
+        # p6g: the same comparator object asked again with ANOTHER predicate selector / callback, interleaved with calls of
+        # the second comparator object: every call is a complete comparison of its own
+        steps = []
+        plan = [("second comparator object (other filters), other selector", comparator2, "2", reuse["out2"], "out2"),
+                ("first comparator object again, other selector and callback", comparator, "1", reuse["out2"], "out2"),
+                ("second comparator object again, first selector", comparator2, "2", out, "out"),
+                ("first comparator object again, first selector", comparator, "1", out, "out")]
+        for what, cmp_obj, which, outm, outkey in plan:
+            ev = []
+            try:
+                sx = cmp_obj(make_selector(outm, ev), make_callback(ev))
+                steps.append({"what": what, "filters": which, "out": outkey, "dom": bool(sx.domain_equality_check),
+                              "entries": sorted([c.name, c.status.name] for c in sx), "verdict": bool(sx),
+                              "callbacks": [[e[1], e[2]] for e in ev if e[0] == "cb"],
+                              "selector": [[e[1], e[2]] for e in ev if e[0] == "sel"]})
+            except Exception as e:  # noqa: BLE001
+                steps.append({"what": what, "filters": which, "out": outkey, "raised": f"{type(e).__name__}: {e}"[:200]})
     buckets_ok = (all(c.status.name == "passed" for c in suite.passed)
                   and all(c.status.name in ("failed", "error") for c in suite.failed)
                   and all(c.status.name in ("missing_source", "missing_reference", "filtered") for c in suite.skipped)
@@ -282,7 +327,7 @@ def run_impl(case):
             "callbacks": [[e[1], e[2]] for e in events if e[0] == "cb"],
             "selector": [[e[1], e[2]] for e in events if e[0] == "sel"],
             "sel_names": [[e[3], e[4]] for e in events if e[0] == "sel"],
-            "again": again,
+            "again": again, "steps": steps,
             "alternating": real or [e[0] for e in events] == ["sel", "cb"] * (len(events) // 2),
             "buckets_ok": buckets_ok}
 
@@ -590,6 +635,183 @@ def _gen_filter_x(rng, stripped_names, allow_all):
     return f
 
 
+# ------------------------------------------------------------------ phase 6 (G2): directed batches for quantifier dimensions
+# that the random generator samples at one point only (see notes/PHASE6_G2_C11.md)
+
+NAMES_P6 = ["", " ", "  ", "a", "ab", "abc", "abcd", "a.b", "A", "Ab", "AB", "p", "p ", " p", "p0", "p00", "p_0", "0", "00", "1e5",
+            "-1", "nan", "None", "True", "é", "e\u0301", "É", "Δp", "δp", "温度", "naïve", "ß", "ss", "a\tb", "a\nb", "a\\b", "a/b",
+            "a:b", "a,b", "a;b", "a|b", "'a'", '"a"', "a @ b", "a @ b @ c", " @ ", "@", "a@b", "a @", "@ a", "a @ QUAD", "a @ PIXEL",
+            "a @ quad", "QUAD", "PIXEL", "x @ VOXEL", "x @ HEXAHEDRON", "*", "**", "?", "[a]", "[!a]", "a*", "*a", "a?", "{a}",
+            "(a)", "a+", "^a$", ".*", "%s", "{0}", "velocity", "velocity_x", "velocity x", "Velocity", "x" * 300,
+            "x" * 299 + "y"]
+PATTERNS_P6 = ["*", "?*", "a*", "*a", "A*", "[a-c]*", "*[0-9]", "* @ *", "é", "Δ*", "*温*", "p?", "??", "", "[!a]*", "velocity*",
+               "x" * 300, "*\n*", "a.b", "a?b"]
+
+
+def many_type_meshes():
+    """hand-made meshes with 4-6 cell types in ONE mesh, incl. both members of a compatible pair (pixel + quad,
+    voxel + hexahedron), in different block orders"""
+    m2 = {"dim": 2,
+          "points": [[0.0, 0.0], [1.0, 0.0], [2.0, 0.0], [3.0, 0.0], [0.0, 1.0], [1.0, 1.0], [2.0, 1.0], [3.0, 1.0], [4.0, 0.5],
+                     [5.0, 2.5]],
+          "cells": [["PIXEL", [[0, 1, 4, 5]]], ["QUAD", [[1, 2, 6, 5]]], ["TRIANGLE", [[2, 3, 7], [2, 7, 6]]],
+                    ["LINE", [[3, 8], [7, 8]]], ["VERTEX", [[8], [9]]]], "pf": [], "cf": []}
+    m2b = dict(m2, cells=[m2["cells"][i] for i in (1, 4, 0, 3, 2)])
+    p3 = [[float(x), float(y), float(z)] for z in (0, 1) for y in (0, 1) for x in (0, 1, 2, 3)]      # 16 lattice points
+    m3 = {"dim": 3, "points": p3 + [[1.5, 0.5, 2.0], [5.0, 5.0, 5.0], [6.0, 5.0, 5.0]],
+          "cells": [["VOXEL", [[0, 1, 4, 5, 8, 9, 12, 13]]], ["HEXAHEDRON", [[1, 2, 6, 5, 9, 10, 14, 13]]],
+                    ["TETRA", [[2, 3, 7, 11], [3, 7, 11, 15]]], ["PYRAMID", [[9, 10, 14, 13, 16]]],
+                    ["QUAD", [[8, 9, 13, 12]]], ["LINE", [[17, 18]]]], "pf": [], "cf": []}
+    m3b = dict(m3, cells=[m3["cells"][i] for i in (5, 1, 3, 0, 2, 4)])
+    return [m2, m2b, m3, m3b]
+
+
+def _p6_filters(rng, names, i):
+    """(include, exclude): match everything / nothing / overlapping explicit sets / globs, by turns"""
+    pool = sorted(set(strip(n) for n in names)) + ["zz"]
+    half = rng.sample(pool, len(pool) // 2)
+    pick = [({"type": "all"}, {"type": "none"}),
+            ({"type": "all"}, {"type": "all"}),
+            ({"type": "none"}, {"type": "none"}),
+            ({"type": "set", "names": sorted(half)}, {"type": "set", "names": sorted(rng.sample(pool, len(pool) // 3))}),
+            ({"type": "glob", "patterns": rng.sample(PATTERNS_P6, rng.randint(1, 3))},
+             {"type": "glob", "patterns": rng.sample(PATTERNS_P6 + PATTERNS, rng.randint(0, 2))}),
+            ({"type": "set", "names": sorted(half)}, {"type": "set", "names": sorted(half)}),
+            ({"type": "glob", "patterns": ["*"]}, {"type": "set", "names": sorted(half)})]
+    return pick[i % len(pick)]
+
+
+def _finish_stub(rng, case):
+    src_o, ref_o = build(dict(case, mode="stub"))
+    src, ref = field_names(src_o), field_names(ref_o)
+    case["out"] = gen_out(rng, len(src), len(ref))
+    return src, ref
+
+
+def gen_wide_case(rng, i, manyt):
+    """directed: MANY fields (100-170 per side) over an adversarial name pool (empty / blank / unicode incl. composed vs
+    decomposed / separators / glob metacharacters / names that are prefixes of each other / case variants / very long),
+    carriers by turns; meshes with 4-6 cell types incl. pixel+quad resp. voxel+hexahedron in one mesh, the same name as
+    point AND cell field; filters by turns (everything / nothing / overlapping / globs)"""
+    numbered = [f"f{k}" for k in range(140)] + [f"f{k} @ b" for k in range(0, 140, 7)]
+    pool = list(dict.fromkeys(NAMES_P6 + numbered))
+    carrier = ["tabular", "custom", "mesh", "tabular", "mesh"][i % 5]
+    if carrier in ("tabular", "custom"):
+        n = rng.randint(100, 170)
+        src = rng.sample(pool, n)
+        keep = [x for x in src if rng.random() < 0.8]
+        ref = keep + [x for x in pool if x not in src and rng.random() < 0.3]
+        rng.shuffle(ref)
+        if carrier == "custom" and rng.random() < 0.5:                    # duplicates inside one collection
+            src = src + rng.sample(src, 5)
+            ref = ref + rng.sample(ref, 5)
+        case = {"kind": carrier, "src": src, "ref": ref, "dom": True, "mode": "stub", "p6": "wide"}
+    else:
+        lm = manyt[(i // 5) % len(manyt)]
+        pf_s = rng.sample(pool, rng.randint(40, 60))
+        cf_s = rng.sample(pool, rng.randint(12, 20))
+        both = rng.sample(cf_s, 4)                                         # the same name as point AND cell field
+        pf_s = list(dict.fromkeys(pf_s + both + [f"{both[0]}{SEP}{lm['cells'][0][0]}"]))
+        pf_r = [x for x in pf_s if rng.random() < 0.8] + rng.sample(pool, 5)
+        cf_r = [x for x in cf_s if rng.random() < 0.8] + rng.sample(pool, 3)
+        pf_r, cf_r = list(dict.fromkeys(pf_r)), list(dict.fromkeys(cf_r))
+        rng.shuffle(pf_r)
+        rng.shuffle(cf_r)
+        lm_r = lm
+        kind = "mesh"
+        if rng.random() < 0.3:
+            kind, lm_r = "meshcmp", meshgen.relabel(rng, lm)
+        case = {"kind": kind, "lm_s": lm, "lm_r": lm_r, "pf_s": pf_s, "cf_s": cf_s, "pf_r": pf_r, "cf_r": cf_r,
+                "mode": "stub", "p6": "wide"}
+    src, ref = _finish_stub(rng, case)
+    case["incl"], case["excl"] = _p6_filters(rng, src + ref, i)
+    return case
+
+
+def gen_reuse_case(rng, i, meshes):
+    """directed: one comparator object called repeatedly with DIFFERENT selectors / callbacks, interleaved with a second
+    comparator object (other filters) over the very same field-data objects; by turns also the SAME object in both roles
+    (alias), TransformedMeshFields views (sort / sort_points / sort_cells / strip_orphan_points on either or both sides)
+    handed to FieldDataComparator directly, and tables with 0 / 1 rows"""
+    variant = ["plain", "alias", "wrap", "plain", "rows"][i % 5]
+    carrier = ["tabular", "mesh", "custom"][(i // 5) % 3]
+    if variant == "wrap":
+        carrier = "mesh"
+    if variant == "rows" and carrier == "mesh":
+        carrier = "tabular"
+    pool = rng.sample(NAMES + NAMES_P6[:60], rng.randint(2, 9))
+    if carrier == "mesh":
+        lm = rng.choice(meshes)
+        case = {"kind": "mesh", "lm_s": lm, "lm_r": lm, "mode": "stub", "p6": "reuse-" + variant,
+                "pf_s": rng.sample(pool, rng.randint(0, min(4, len(pool)))), "cf_s": rng.sample(pool, rng.randint(0, min(3, len(pool)))),
+                "pf_r": rng.sample(pool, rng.randint(0, min(4, len(pool)))), "cf_r": rng.sample(pool, rng.randint(0, min(3, len(pool))))}
+        if variant == "wrap":
+            w = ["sort", "sort_points", "sort_cells", "strip_orphan_points", "plain"]
+            ws = rng.choice(w[:4])
+            case["wrap"] = [ws, ws if rng.random() < 0.7 else rng.choice(w)]
+            if rng.random() < 0.5:
+                case["lm_r"] = meshgen.relabel(rng, lm)
+    else:
+        dup = carrier == "custom" and rng.random() < 0.4
+        src, ref = gen_names(rng, dup)
+        if not dup:
+            ref = list(dict.fromkeys(ref + [n for n in src if rng.random() < 0.6]))
+        case = {"kind": carrier, "src": src, "ref": ref, "dom": rng.random() < 0.93, "mode": "stub", "p6": "reuse-" + variant}
+        if variant == "rows":
+            case["rows"] = rng.choice([0, 1, 1, 3])
+            if case["rows"] == 0:
+                case["mode"] = "real"
+    if variant == "alias":
+        case["alias"] = True
+        if carrier == "mesh":
+            case["pf_r"], case["cf_r"] = case["pf_s"], case["cf_s"]
+        else:
+            case["ref"], case["dom"] = list(case["src"]), True
+    if case["mode"] == "real":
+        ns, nr = len(case["src"]), len(case["ref"])
+        case["pal_s"], case["pal_r"] = [rng.randint(1, 3) for _ in range(ns)], [rng.randint(1, 3) for _ in range(nr)]
+        names = case["src"] + case["ref"]
+    else:
+        src, ref = _finish_stub(rng, case)
+        names = src + ref
+        out2 = gen_out(rng, len(src), len(ref))
+        if out2 == case["out"] and src and ref:                              # the other selector must decide differently
+            out2 = [[(o + 1) % 3 for o in row] for row in out2]
+        stripped = [strip(n) for n in names]
+        case["reuse"] = {"out2": out2, "incl2": gen_filter(rng, stripped), "excl2": gen_filter(rng, stripped, allow_all=False)}
+    stripped = [strip(n) for n in names]
+    case["incl"] = gen_filter(rng, stripped)
+    case["excl"] = gen_filter(rng, stripped, allow_all=False) if rng.random() < 0.7 else {"type": "none"}
+    if case["mode"] != "real" and rng.random() < 0.5 and case["incl"]["type"] == "all" and case["excl"]["type"] == "none":
+        case["excl"] = {"type": "set", "names": sorted(set(rng.sample(stripped, max(1, len(stripped) // 3))))} if stripped else case["excl"]
+    return case
+
+
+def check_steps(case, obs):
+    """p6g: the repeated / interleaved calls recorded in obs['steps'] against the property: each call reports every field once
+    with the statuses the selector of THAT call produces under the filters of THAT comparator object.  The code-level
+    reading of the filters is used (inside class F14 the first call already reports the known deviation; outside the class
+    both readings coincide - theorem C11_filter_names_partial)"""
+    bad = []
+    for st in obs.get("steps") or []:
+        if "raised" in st:
+            bad.append((st["what"], "raised: " + st["raised"], "a FieldComparisonSuite"))
+            continue
+        cf = case if st["filters"] == "1" else dict(case, incl=case["reuse"]["incl2"], excl=case["reuse"]["excl2"])
+        of = dict(obs, out=obs["out"] if st["out"] == "out" else case["reuse"]["out2"])
+        orc = oracle(cf, of)
+        if obs["dom"]:
+            want = {"dom": True, "verdict": orc["verdict"], "entries": [list(e) for e in orc["entries"]], "callbacks": orc["compared"]}
+        else:
+            want = {"dom": False, "verdict": False, "entries": [], "callbacks": []}
+        got = {k: st[k] for k in ("dom", "verdict", "entries", "callbacks")}
+        if got != want:
+            bad.append((st["what"], got, want))
+        elif len(st["selector"]) != len(st["callbacks"]):
+            bad.append((st["what"], {"selector calls": len(st["selector"])}, {"performed comparisons": len(st["callbacks"])}))
+    return bad
+
+
 # ------------------------------------------------------------------ evaluation
 
 def check_case(case, obs, rep):
@@ -674,6 +896,25 @@ def tags_of(case, obs):
         x = case["xdim"]
         t += [f"spacedim-{x['dims'][0]}v{x['dims'][1]}", "xdim-relabeled" if x["relabeled"] else "xdim-same-order",
               "xdim-orphans-" + x["orphan"], "xdim-flags-" + "".join(str(int(b)) for b in case["flags"])]
+    if case.get("p6"):
+        t.append("p6-" + case["p6"])
+        if case["p6"] == "wide":
+            t += ["p6-wide-" + case["kind"], "p6-nfields>=100" if max(len(obs["src"]), len(obs["ref"])) >= 100 else "p6-nfields<100"]
+            if "lm_s" in case:
+                ts = {x for x, _ in case["lm_s"]["cells"]}
+                t.append(f"p6-celltypes={len(ts)}")
+                if {"PIXEL", "QUAD"} <= ts or {"VOXEL", "HEXAHEDRON"} <= ts:
+                    t.append("p6-compatible-pair-in-one-mesh")
+    if case.get("alias"):
+        t.append("p6-same-object-both-roles")
+    if case.get("wrap"):
+        t.append("p6-view-" + "+".join(case["wrap"]))
+    if "rows" in case:
+        t.append(f"p6-rows={case['rows']}")
+    if obs.get("steps"):
+        t.append("p6-interleaved-calls")
+    if any(ord(ch) > 127 for n in obs["src"] + obs["ref"] for ch in n):
+        t.append("unicode-names")
     return t
 
 
@@ -707,6 +948,10 @@ def evaluate(ctx, cases):
                               what=f"call no. {k2 + 2} of the same FieldDataComparator object does not report every field "
                                    "exactly once with the status of the first call")
                 break
+        for what2, got2, want2 in check_steps(c, o)[:1]:
+            ctx.violation(dict(c, failing_step=what2), got2, want2, cls=None,
+                          what=f"repeated / interleaved comparator calls: {what2}: the report is not the one the property demands "
+                               "for the filters of that comparator and the selector of that call")
         for prob in check_case(c, o, rep):
             kind, a, b, what = prob[:4]
             cls = prob[4] if len(prob) > 4 else None
@@ -737,6 +982,8 @@ def fails(case) -> bool:
     except Exception:
         return False
     if "raised" in o:
+        return True
+    if check_steps(case, o):
         return True
     return any(p[0] == "violation" and len(p) == 4 for p in check_case(case, o, None))
 
@@ -866,6 +1113,21 @@ def run(ctx):
                      "x relabeled / same order x orphan points on either side x the three comparator flags x field names "
                      "with upper-case / punctuation endings and prefixes / suffixes of the mesh's cell-type names; "
                      "expected report = the model / oracle on the names exposed by the input objects")
+    # phase 6 (G2) directed batches
+    manyt = many_type_meshes()
+    n_wide = ctx.scale(20, 300)
+    for i0 in range(0, n_wide, 20):
+        evaluate(ctx, [gen_wide_case(rng, i, manyt) for i in range(i0, min(i0 + 20, n_wide))])
+    n_reuse = ctx.scale(900, 15000)
+    for i0 in range(0, n_reuse, CH):
+        evaluate(ctx, [gen_reuse_case(rng, i, meshes + manyt) for i in range(i0, min(i0 + CH, n_reuse))])
+    ctx.extra["p6_wide_cases"], ctx.extra["p6_reuse_cases"] = n_wide, n_reuse
+    ctx.notes.append("phase-6 directed parts: (wide) 100-170 fields per side over an adversarial name pool on tables / custom "
+                     "field data / meshes with 4-6 cell types incl. pixel+quad resp. voxel+hexahedron in one mesh; (reuse) one "
+                     "comparator object called again with other selectors / callbacks, interleaved with a second comparator object "
+                     "(other filters) over the same field data, the same object in both roles, TransformedMeshFields views as "
+                     "inputs, tables with 0 / 1 rows; repeated calls are judged against the Python oracle of the property (search), "
+                     "the first call additionally against the Lean model (correspondence)")
     ex = exhaustive_small(ctx, ["p", "q @ LINE", "a*"] if ctx.tier == "quick" else ["p", "q @ LINE", "a*", ""])
     for i in range(0, len(ex), CH):
         evaluate(ctx, ex[i:i + CH])
@@ -926,6 +1188,9 @@ def replay(ctx, payload):
             print(f"replay: call no. {k2 + 2} of the same comparator object reports {a2n}, the first call {first}")
             bad.append(("violation", a2n, first, "repeated call differs"))
             break
+    for what2, got2, want2 in check_steps(c, o):
+        print(f"replay: {what2}: reported {str(got2)[:600]}, the property demands {str(want2)[:600]}")
+        bad.append(("violation", got2, want2, what2))
     for p in probs:
         if len(p) > 4 and p[4] in known:
             print(f"replay: KNOWN-FINDING class {p[4]}: {p[3]}")
